@@ -435,6 +435,7 @@ def pool_ops_part(chk):
                      ('call_and_wait raising with a dead worker', lambda: pool.call_and_wait(lazy_fns.trace(lazylib.boom)(1))),
                      # the operation fails while it is being submitted (an argument that cannot be pickled)
                      ('call_and_wait failing at submission', lambda: pool.call_and_wait(lazy_fns.trace(lazylib.add)(_th.Lock(), 1))),
+                     ('run failing at submission', lambda: pool.run(lazy_fns.trace(lazylib.add)(_th.Lock(), 1))),
                      # run() walks over the dead worker (listed first) on its way to the usable one
                      ('run with a dead worker', lambda: dead_first.run(lazy_fns.trace(lazylib.inc)(1))),
                      ('run raising with a dead worker', lambda: dead_first.run(lazy_fns.trace(lazylib.boom)(1)))):
